@@ -781,7 +781,11 @@ Section PROC.
     - apply IH. destruct (escans x); [exact H | discriminate H].
   Qed.
   Lemma bw_filter_escans col labels by_ : escans (bw_filter col labels by_) = escans col.
-  Proof. unfold bw_filter. cbn [escans flat_map app]. rewrite strvs_noselect. cbn [app]. rewrite app_nil_r. reflexivity. Qed.
+  Proof.
+    unfold bw_filter. destruct (by_ && match labels with [] => true | _ => false end).
+    - cbn [escans flat_map app]. rewrite app_nil_r. reflexivity.
+    - cbn [escans flat_map app]. rewrite strvs_noselect. cbn [app]. rewrite app_nil_r. reflexivity.
+  Qed.
   Lemma rename_string_egood cols : Forall egood cols -> Forall egood (rename_string cols).
   Proof.
     intros H. unfold rename_string. induction H as [|x r Hx Hr IH]; cbn [map]; constructor; [|exact IH].
